@@ -48,6 +48,12 @@ func (fr *frame) callWrites(c *ssa.CallCommon) (heaps map[string]bool, all bool,
 			if cb.Kind == "pure" {
 				return
 			}
+			if cb.Kind == "fresh" {
+				if pt, ok := unalias(c.Signature().Results().At(0).Type()).Underlying().(*types.Pointer); ok {
+					heaps[fr.heapNameForPointee(pt.Elem())] = true
+				}
+				return heaps, false, true
+			}
 			if cb.Kind == "effect" {
 				heaps["G_visits"] = true
 				fr.vc.regHeap("G_visits", "(Array Int Int)")
@@ -78,7 +84,7 @@ func (fr *frame) callWrites(c *ssa.CallCommon) (heaps map[string]bool, all bool,
 			} else {
 				return nil, true, true
 			}
-		case "io.ReadFull":
+		case "io.ReadFull", "sort.Strings":
 			heaps[vc.heapArr("Int")] = true
 		}
 		return heaps, false, false
@@ -362,7 +368,7 @@ func (fr *frame) checkRequires(fc *FuncContract, callee *ssa.Function, c *ssa.Ca
 		return
 	}
 	vars, addrs := fr.calleeEnvVars(callee, args, cl, st)
-	env := &Env{vc: fr.vc, fr: fr, pkg: pkgOf(callee), vars: vars, varAddrs: addrs, st: st, old: st, next0: fr.next0, calleeScope: true}
+	env := &Env{vc: fr.vc, fr: fr, pkg: pkgOf(callee), vars: vars, varAddrs: addrs, st: st, old: st, next0: fr.next0, calleeScope: true, cbs: cbMap(fc)}
 	for i, rq := range fc.Requires {
 		g := env.evalBool(rq.E)
 		lab := rq.Label
@@ -484,7 +490,7 @@ func (fr *frame) modularCall(fc *FuncContract, callee *ssa.Function, c *ssa.Call
 	fr.checkRequires(fc, callee, c, args, cl, st, pos)
 	pre := st.clone()
 	vars, addrs := fr.calleeEnvVars(callee, args, cl, pre)
-	envPre := &Env{vc: vc, fr: fr, pkg: pkgOf(callee), vars: vars, varAddrs: addrs, st: pre, old: pre, next0: pre.next, calleeScope: true}
+	envPre := &Env{vc: vc, fr: fr, pkg: pkgOf(callee), vars: vars, varAddrs: addrs, st: pre, old: pre, next0: pre.next, calleeScope: true, cbs: cbMap(fc)}
 	// frame: what the callee may modify must be modifiable by the caller
 	newNext := vc.declareConst("next", "Int")
 	vc.assume("true", fmt.Sprintf("(>= %s %s)", newNext, pre.next))
@@ -540,7 +546,7 @@ func (fr *frame) modularCall(fc *FuncContract, callee *ssa.Function, c *ssa.Call
 			postVars[names[i]] = r
 		}
 	}
-	envPost := &Env{vc: vc, fr: fr, pkg: pkgOf(callee), vars: postVars, varAddrs: addrs, st: st, old: pre, next0: pre.next, calleeScope: true}
+	envPost := &Env{vc: vc, fr: fr, pkg: pkgOf(callee), vars: postVars, varAddrs: addrs, st: st, old: pre, next0: pre.next, calleeScope: true, cbs: cbMap(fc)}
 	for _, en := range fc.Ensures {
 		g := envPost.evalBool(en.E)
 		vc.assume(st.reach, g)
@@ -566,7 +572,8 @@ func (fr *frame) havocTarget(mv T, st *state, pos string) {
 	case *types.Slice:
 		h := vc.heapArr(vc.sortOf(u.Elem()))
 		ref := fmt.Sprintf("(s_arr %s)", mv.S)
-		fr.frameCheck("frame.call", ref, st, pos)
+		// an empty slice has no elements a callee could write
+		fr.frameCheck("frame.call", ref, st, pos, fmt.Sprintf("(= (s_len %s) 0)", mv.S))
 		nv := vc.declareConst("hv", "(Array Int "+vc.sortOf(u.Elem())+")")
 		vc.heapStoreRef(st, h, ref, nv)
 	case *types.Map:
@@ -576,8 +583,11 @@ func (fr *frame) havocTarget(mv T, st *state, pos string) {
 		v := vc.heapVal(ks, vs)
 		nd := vc.declareConst("hv", "(Array "+ks+" Bool)")
 		nv := vc.declareConst("hv", "(Array "+ks+" "+vs+")")
-		vc.heapSet(st, d, fmt.Sprintf("(store %s %s %s)", vc.heapGet(st, d), mv.S, nd))
-		vc.heapSet(st, v, fmt.Sprintf("(store %s %s %s)", vc.heapGet(st, v), mv.S, nv))
+		od, ov := vc.heapGet(st, d), vc.heapGet(st, v)
+		vc.heapSet(st, d, fmt.Sprintf("(store %s %s %s)", od, mv.S, nd))
+		vc.heapSet(st, v, fmt.Sprintf("(store %s %s %s)", ov, mv.S, nv))
+		vc.mapOthersUnchanged(d, st.heap[d], od, fmt.Sprintf("(not (= m %s))", mv.S))
+		vc.mapOthersUnchanged(v, st.heap[v], ov, fmt.Sprintf("(not (= m %s))", mv.S))
 	default:
 		bail("modifies item of type %s", mv.GT)
 	}
@@ -616,6 +626,21 @@ func (fr *frame) applyCallback(cb *CallbackSpec, c *ssa.CallCommon, args []T, in
 			res = []T{}
 		}
 		return res
+	case "fresh":
+		// returns a pointer to a freshly allocated object whose value is a pure function of (function id, args)
+		fv := fr.val(c.Value)
+		if len(rts) != 1 {
+			bail("fresh callback must return exactly one pointer")
+		}
+		pt, ok := unalias(rts[0]).Underlying().(*types.Pointer)
+		if !ok {
+			bail("fresh callback must return a pointer")
+		}
+		val := vc.applyFreshValue(fv, c.Signature(), pt.Elem(), args)
+		r := vc.alloc(st)
+		h := vc.heapPtr(val.Sort)
+		vc.heapSet(st, h, fmt.Sprintf("(store %s %s %s)", vc.heapGet(st, h), r, val.S))
+		return []T{{r, "Int", rts[0]}}
 	case "effect":
 		// ghost: visits[first argument] += 1 ; results unconstrained
 		vc.regHeap("G_visits", "(Array Int Int)")
@@ -716,6 +741,13 @@ func (fr *frame) closureAxiom(fn *ssa.Function, cv *closureVal, id string, st *s
 		args = append(args, t)
 	}
 	app := vc.applyFuncValue(T{id, "Int", fn.Signature}, fn.Signature, args)[0]
+	if fc.FreshResult {
+		pt, ok := unalias(fn.Signature.Results().At(0).Type()).Underlying().(*types.Pointer)
+		if !ok {
+			bail("freshresult function must return a pointer")
+		}
+		app = vc.applyFreshValue(T{id, "Int", fn.Signature}, fn.Signature, pt.Elem(), args)
+	}
 	names := fc.Returns
 	if len(names) == 0 {
 		names = []string{"result"}
@@ -1040,4 +1072,26 @@ func storeReachableAfter(g *ssa.Go, al *ssa.Alloc) bool {
 		stack = append(stack, b.Succs...)
 	}
 	return false
+}
+
+// applyFreshValue: the value of the object a "fresh" function value returns a pointer to.
+func (vc *VC) applyFreshValue(fv T, sig *types.Signature, elem types.Type, args []T) T {
+	name := "applyval." + sigKey(sig)
+	as := []string{fv.S}
+	ss := []string{"Int"}
+	for _, a := range args {
+		as = append(as, a.S)
+		ss = append(ss, a.Sort)
+	}
+	rs := vc.sortOf(elem)
+	vc.decl(name, fmt.Sprintf("(declare-fun %s (%s) %s)", name, strings.Join(ss, " "), rs))
+	return T{fmt.Sprintf("(%s %s)", name, strings.Join(as, " ")), rs, elem}
+}
+
+func cbMap(fc *FuncContract) map[string]*CallbackSpec {
+	m := map[string]*CallbackSpec{}
+	for _, cb := range fc.Callbacks {
+		m[cb.Param] = cb
+	}
+	return m
 }
